@@ -1,10 +1,27 @@
-(* C09 — the small-step model of Conc.v instantiated with cache.Cache: the sequential object is the
-   C08 model, which methods are lock-wrapped is read from Gen/CacheLocks.v (regenerated from
-   cache/cache.go on every run). *)
+(* C09 — the small-step model of Conc.v instantiated with cache.Cache.
+
+   The sequential object is the C08 model (one call = [CacheModel.step]).  The locking shape of every
+   method is read from Gen/CacheLocks.v, which the translator's "cachelocks" generator rebuilds from
+   cache/cache.go on every run: per method the list of parts of its body (ConcShape.v).
+   A method whose parts are exactly [Body Excl] (resp. [Body Shar]) is ONE exclusive (resp. shared)
+   critical section, and its section is the C08 step of the call.  For any other shape (a call of
+   another locking method before the Lock, a Lock taken late, an explicit Unlock in the middle, no
+   lock at all, ...) the C08 model has no description of the pieces; such a method is given the shape
+   [Unl] — its body runs without any protection — and [all_atomic] is false, so none of the
+   theorems below is available for that source.  (Conc.v itself runs operations with several
+   sections; ConcRefute.v does so for a check-then-act Remove.)
+
+   [all_atomic] demands, of the CURRENT source:
+     - the mutex field is a sync.Mutex or a sync.RWMutex;
+     - each of Put, Get, Has, Remove, Clear, Len, Size is one critical section, exclusive, or
+       shared if the method is one of Has, Len, Size — the methods that the C08 model proves to
+       leave the cache as it is ([read_only_ok]); Get is not among them: it moves the entry in the
+       recency order ([get_changes_state]);
+     - every other method of Cache that touches the receiver is one exclusive critical section. *)
 From Coq Require Import ZArith List Bool Lia String.
 Import ListNotations.
 From Mds Require Import Gen.CacheLocks Heapq.HeapqModel Cache.CacheSpec Cache.CacheModel Cache.CacheLruProofs
-  Cache.CacheTheorems Cache.Conc.
+  Cache.CacheTheorems Cache.CacheTheoremsS2 Cache.ConcShape Cache.Conc.
 Local Open Scope Z_scope.
 
 Definition meth_name {K V} (o : op K V) : string :=
@@ -13,24 +30,51 @@ Definition meth_name {K V} (o : op K V) : string :=
   | OClear => "Clear" | OLen => "Len" | OSize => "Size"
   end%string.
 
-Fixpoint lookup (n : string) (l : list (string * bool)) : bool :=
+Fixpoint lookup (n : string) (l : list (string * list part)) : list part :=
   match l with
-  | [] => false      (* a method the translator did not find is not lock-wrapped *)
-  | (m, b) :: r => if String.eqb m n then b else lookup n r
+  | [] => []          (* a method the translator did not find: no critical section *)
+  | (m, ps) :: r => if String.eqb m n then ps else lookup n r
   end.
 
-(* is the method of this call lock-wrapped in the current source? *)
-Definition method_locked {K V} (o : op K V) : bool := lookup (meth_name o) cache_methods.
+(* the critical sections of a call in the current source *)
+Definition method_shape {K V} (o : op K V) : list mode :=
+  match one_section (lookup (meth_name o) cache_methods) with
+  | Some m => [m]
+  | None => [Unl]
+  end.
 
-(* every public method of Cache that the model covers runs entirely under the mutex *)
-Definition all_locked : bool :=
-  forallb (fun n => lookup n cache_methods) ["Put"; "Get"; "Has"; "Remove"; "Clear"; "Len"; "Size"]%string.
+(* the methods that may run under the shared lock *)
+Definition read_only_name (n : string) : bool :=
+  (String.eqb n "Has" || String.eqb n "Len" || String.eqb n "Size")%string.
 
-Lemma all_locked_ops : all_locked = true -> forall K V (o : op K V), method_locked o = true.
+Definition method_ok (n : string) (ps : list part) : bool :=
+  match one_section ps with
+  | Some Excl => true
+  | Some Shar => read_only_name n
+  | _ => false
+  end.
+
+Definition mutex_ok : bool :=
+  (String.eqb cache_mutex_type "sync.Mutex" || String.eqb cache_mutex_type "sync.RWMutex")%string.
+
+Definition modelled_methods : list string := ["Put"; "Get"; "Has"; "Remove"; "Clear"; "Len"; "Size"]%string.
+
+Definition all_atomic : bool :=
+  mutex_ok &&
+  forallb (fun n => method_ok n (lookup n cache_methods)) modelled_methods &&
+  forallb (fun nm => method_ok (fst nm) (snd nm)) cache_methods.
+
+Lemma all_atomic_ops : all_atomic = true -> forall K V (o : op K V),
+  method_shape o = [Excl] \/ (method_shape o = [Shar] /\ read_only_name (meth_name o) = true).
 Proof.
-  unfold all_locked. cbn [forallb]. intro H.
-  repeat (apply andb_prop in H; let H1 := fresh in destruct H as [H1 H]).
-  intros K V o. destruct o; unfold method_locked; cbn [meth_name]; assumption.
+  unfold all_atomic. intro H. apply andb_prop in H. destruct H as [H _]. apply andb_prop in H. destruct H as [_ H].
+  unfold modelled_methods in H. cbn [forallb] in H.
+  repeat (apply andb_prop in H; let H1 := fresh "M" in destruct H as [H1 H]).
+  assert (G : forall n, method_ok n (lookup n cache_methods) = true ->
+            forall sh, sh = match one_section (lookup n cache_methods) with Some m => [m] | None => [Unl] end ->
+            sh = [Excl] \/ (sh = [Shar] /\ read_only_name n = true)).
+  { intros n Hn sh ->. unfold method_ok in Hn. destruct (one_section (lookup n cache_methods)) as [[| |]|]; try discriminate; auto. }
+  intros K V o. destruct o; unfold method_shape; cbn [meth_name]; eapply G; try reflexivity; assumption.
 Qed.
 
 Section Inst.
@@ -40,7 +84,6 @@ Hypothesis keqb_spec : forall a b, keqb a b = true <-> a = b.
 Variable kzero : K.
 Variable vzero : V.
 Variable sizeOf : V -> Z.
-Hypothesis size_nonneg : forall v, 0 <= sizeOf v.
 Variable hv : variant.
 Variable lim : Z.
 Hypothesis lim_pos : 0 < lim.
@@ -49,8 +92,10 @@ Notation step := (step K V keqb kzero vzero sizeOf hv).
 Notation run := (run K V keqb kzero vzero sizeOf hv).
 Notation exec := (exec K V keqb kzero vzero sizeOf hv).
 
+Definition cres_t : Type := option (out V * evlog K V).
+
 (* the sequential object: one call of the C08 model; None = the call panicked (never happens) *)
-Definition cache_seq (c : cache K V) (o : op K V) : cache K V * option (out V * evlog K V) :=
+Definition cache_seq (c : cache K V) (o : op K V) : cache K V * cres_t :=
   match step c o with
   | COk (c', r) => (c', Some r)
   | _ => (c, None)
@@ -58,10 +103,40 @@ Definition cache_seq (c : cache K V) (o : op K V) : cache K V * option (out V * 
 
 Definition cache_init : cache K V := {| store := lru_new K V; csize := 0; count := 0; limit := lim |}.
 
-Notation creach := (reach (cache K V) (op K V) (option (out V * evlog K V)) cache_seq method_locked cache_init).
-Notation clins := (lins (op K V) (option (out V * evlog K V))).
-Notation clegal := (legal (cache K V) (op K V) (option (out V * evlog K V)) cache_seq).
-Notation crun_seq := (run_seq (cache K V) (op K V) (option (out V * evlog K V)) cache_seq).
+(* the one section of a call is the C08 step; a call returns what its section computed *)
+Definition csec (o : op K V) (k : nat) (l : cres_t) (s : cache K V) : cache K V * cres_t := cache_seq s o.
+Definition cfin (o : op K V) (l : cres_t) : cres_t := l.
+
+Notation cseq := (seq (cache K V) (op K V) cres_t cres_t method_shape csec None cfin).
+Notation creach := (reach (cache K V) (op K V) cres_t cres_t method_shape csec None cfin cache_init).
+Notation clins := (lins (op K V) cres_t).
+Notation clegal := (legal (cache K V) (op K V) cres_t cres_t method_shape csec None cfin).
+Notation crun_seq := (run_seq (cache K V) (op K V) cres_t cres_t method_shape csec None cfin).
+Notation ctrace := (trace (cache K V) (op K V) cres_t cres_t).
+
+(* Has, Len and Size leave the cache as it is *)
+Lemma read_only_ok (o : op K V) : read_only_name (meth_name o) = true -> forall s, fst (cache_seq s o) = s.
+Proof.
+  destruct o; cbn; try discriminate; intros _ s; unfold cache_seq; cbn [CacheModel.step].
+  - destruct (cache_has K V keqb vzero s k); reflexivity.
+  - reflexivity.
+  - reflexivity.
+Qed.
+
+Hypothesis HA : all_atomic = true.
+
+Lemma atomic_ops : forall o : op K V,
+  method_shape o = [Excl] \/ (method_shape o = [Shar] /\ forall s, fst (csec o 0 None s) = s).
+Proof.
+  intro o. destruct (all_atomic_ops HA K V o) as [H|[H1 H2]]; [left; exact H|right].
+  split; [exact H1|]. intro s. unfold csec. apply read_only_ok. exact H2.
+Qed.
+
+(* with one section per call, the sequential object of the small-step model is the C08 step *)
+Lemma cseq_eq s o : cseq s o = cache_seq s o.
+Proof.
+  unfold seq. destruct (atomic_ops o) as [H|[H _]]; rewrite H; cbn; unfold csec, cfin; destruct (cache_seq s o); reflexivity.
+Qed.
 
 Lemma legal_run : forall L c obs,
   run c (map fst L) = map ok_event obs -> clegal c L ->
@@ -69,7 +144,7 @@ Lemma legal_run : forall L c obs,
 Proof.
   induction L as [|[o r] L IH]; intros c obs HR HL.
   - destruct obs; [split; reflexivity|discriminate].
-  - cbn [map fst CacheModel.run CacheModel.exec] in *. cbn [legal run_seq] in *. unfold cache_seq in *.
+  - cbn [map fst CacheModel.run CacheModel.exec] in *. cbn [legal run_seq] in *. rewrite cseq_eq in *. unfold cache_seq in *.
     destruct (step c o) as [[c' [r0 log]]|k|] eqn:HS.
     + destruct obs as [|[r1 log1] obs]; [discriminate|]. cbn [map ok_event fst snd] in HR.
       injection HR as E1 E2 HR. subst r1 log1. destruct HL as [Hr HL]. cbn [fst snd] in *.
@@ -84,45 +159,115 @@ Proof.
   destruct H as [H1 H2]. destruct (IH _ _ H2) as [A B]. split; [split; assumption|exact B].
 Qed.
 
-(* Every history of the model with all methods lock-wrapped is linearizable w.r.t. the C08 model *)
-Theorem cache_linearizable : all_locked = true ->
+(* ---- linearizability ---- *)
+(* Every history of the model is linearizable (Herlihy and Wing) w.r.t. the C08 model *)
+Theorem cache_linearizable :
   forall progs c, creach progs c ->
-    linearizable (cache K V) (op K V) (option (out V * evlog K V)) cache_seq cache_init
-      (history (op K V) (option (out V * evlog K V)) (trace _ _ _ c)).
+    linearizable (cache K V) (op K V) cres_t cres_t method_shape csec None cfin cache_init
+      (history (op K V) cres_t (ctrace c)).
 Proof.
-  intros HA progs c HR. apply (all_locked_linearizable _ _ _ cache_seq method_locked cache_init (all_locked_ops HA K V) progs c HR).
+  intros progs c HR. exact (atomic_linearizable _ _ _ _ method_shape csec None cfin cache_init atomic_ops progs c HR).
 Qed.
 
-(* ... and the calls in linearization order are a behaviour of the policy-agnostic reference S1:
-   no call panics, every departing entry is reported exactly once, answers and accounting are
-   those of C08 *)
-Theorem cache_linearization_s1 : all_locked = true ->
-  forall progs c, creach progs c ->
-    exists obs, map snd (clins (trace _ _ _ c)) = map Some obs /\
-                s1_accepts K V keqb vzero sizeOf lim [] (map fst (clins (trace _ _ _ c))) obs.
+Theorem cache_ids_unique :
+  forall progs c, creach progs c -> ids_unique (op K V) cres_t (history (op K V) cres_t (ctrace c)).
 Proof.
-  intros HA progs c HR.
-  destruct (all_locked_trace _ _ _ cache_seq method_locked cache_init (all_locked_ops HA K V) progs c HR) as (HL & _ & _).
-  destruct (refines_S1 K V keqb keqb_spec kzero vzero sizeOf size_nonneg hv lim (map fst (clins (trace _ _ _ c))) lim_pos) as (obs & HRun & HAcc).
+  intros progs c HR. exact (atomic_ids_unique _ _ _ _ method_shape csec None cfin cache_init atomic_ops progs c HR).
+Qed.
+
+(* legality w.r.t. the small-step model's sequential object is legality w.r.t. the C08 step, call by call *)
+Theorem cache_legal_is_c08 : forall L c,
+  clegal c L <->
+  (fix lg (c : cache K V) (L : list (op K V * cres_t)) : Prop :=
+     match L with
+     | [] => True
+     | (o, r) :: L' => snd (cache_seq c o) = r /\ lg (fst (cache_seq c o)) L'
+     end) c L.
+Proof.
+  induction L as [|[o r] L IH]; intro c; cbn [legal]; [tauto|]. rewrite cseq_eq, IH. tauto.
+Qed.
+
+Hypothesis size_nonneg : forall v, 0 <= sizeOf v.
+
+(* ---- what every legal sequential run (hence every linearization) looks like ---- *)
+(* it is a behaviour of the policy-agnostic reference S1: no call panics, every departing entry is
+   reported exactly once, answers and accounting are those of C08 *)
+Theorem cache_legal_s1 : forall L, clegal cache_init L ->
+  exists obs, map snd L = map Some obs /\ s1_accepts K V keqb vzero sizeOf lim [] (map fst L) obs.
+Proof.
+  intros L HL.
+  destruct (refines_S1 K V keqb keqb_spec kzero vzero sizeOf size_nonneg hv lim (map fst L) lim_pos) as (obs & HRun & HAcc).
   unfold run_new in HRun. rewrite (cache_new_ok K V lim lim_pos) in HRun.
   exists obs. split; [|exact HAcc]. exact (proj1 (legal_run _ _ _ HRun HL)).
 Qed.
 
-(* every Size observed by any thread is within the limit *)
-Theorem cache_conc_size_le_limit : all_locked = true ->
-  forall progs c r, creach progs c -> In (OSize, r) (clins (trace _ _ _ c)) ->
-    exists n, r = Some (RNum n, []) /\ 0 <= n <= lim.
+(* the state in which a call of a legal run is made is a consistent cache *)
+Lemma legal_call_state L o r : clegal cache_init L -> In (o, r) L ->
+  exists c, consistent K V keqb sizeOf lim c /\ r = snd (cache_seq c o).
 Proof.
-  intros HA progs c r HR Hin.
-  destruct (all_locked_trace _ _ _ cache_seq method_locked cache_init (all_locked_ops HA K V) progs c HR) as (HL & _ & _).
-  apply in_split in Hin. destruct Hin as (L1 & L2 & HE). rewrite HE in HL.
-  destruct (legal_app_l _ _ _ HL) as [HL1 HL2]. cbn [legal] in HL2. destruct HL2 as [Hr _].
+  intros HL Hin. apply in_split in Hin. destruct Hin as (L1 & L2 & HE). rewrite HE in HL.
+  destruct (legal_app_l _ _ _ HL) as [HL1 HL2]. cbn [legal] in HL2. destruct HL2 as [Hr _]. rewrite cseq_eq in Hr.
   destruct (refines_S1 K V keqb keqb_spec kzero vzero sizeOf size_nonneg hv lim (map fst L1) lim_pos) as (obs & HRun & _).
   unfold run_new in HRun. rewrite (cache_new_ok K V lim lim_pos) in HRun.
   destruct (legal_run _ _ _ HRun HL1) as [_ HEx].
-  pose proof (reachable_consistent K V keqb keqb_spec kzero vzero sizeOf size_nonneg hv lim _ _ lim_pos HEx) as (_ & _ & _ & _ & _ & Hb & _).
-  exists (cache_size K V (crun_seq cache_init L1)). split; [|exact Hb].
-  rewrite <- Hr. unfold cache_seq. reflexivity.
+  exists (crun_seq cache_init L1). split; [|symmetry; exact Hr].
+  exact (reachable_consistent K V keqb keqb_spec kzero vzero sizeOf size_nonneg hv lim _ _ lim_pos HEx).
+Qed.
+
+(* ---- what the threads observe ---- *)
+Lemma observed_in_lins progs c t n o r : creach progs c ->
+  In (ERes (op K V) cres_t t n o r) (ctrace c) -> clegal cache_init (clins (ctrace c)) /\ In (o, r) (clins (ctrace c)).
+Proof.
+  intros HR Hin.
+  destruct (atomic_trace _ _ _ _ method_shape csec None cfin cache_init atomic_ops progs c HR) as (HL & _ & HO).
+  split; [exact HL|exact (HO t n o r Hin)].
+Qed.
+
+(* every Size observed by any thread is within the limit *)
+Theorem cache_conc_size_le_limit :
+  forall progs c t n r, creach progs c -> In (ERes (op K V) cres_t t n OSize r) (ctrace c) ->
+    exists z, r = Some (RNum z, []) /\ 0 <= z <= lim.
+Proof.
+  intros progs c t n r HR Hin. destruct (observed_in_lins _ _ _ _ _ _ HR Hin) as [HL HI].
+  destruct (legal_call_state _ _ _ HL HI) as (s & HC & ->).
+  destruct HC as (_ & _ & _ & _ & _ & Hb & _).
+  exists (cache_size K V s). split; [reflexivity|exact Hb].
+Qed.
+
+(* every Len observed by any thread is the number of entries of a consistent cache: never negative *)
+Theorem cache_conc_len_nonneg :
+  forall progs c t n r, creach progs c -> In (ERes (op K V) cres_t t n OLen r) (ctrace c) ->
+    exists z, r = Some (RNum z, []) /\ 0 <= z.
+Proof.
+  intros progs c t n r HR Hin. destruct (observed_in_lins _ _ _ _ _ _ HR Hin) as [HL HI].
+  destruct (legal_call_state _ _ _ HL HI) as (s & HC & ->).
+  destruct HC as (_ & _ & _ & _ & Hlen & _).
+  exists (cache_len K V s). split; [reflexivity|]. rewrite Hlen. unfold len. lia.
 Qed.
 
 End Inst.
+
+(* under a heap without the two known defects (F1, F2) every legal sequential run, hence every
+   linearization, returns exactly what the reference LRU returns: least recently used victims *)
+Theorem cache_legal_s2_sound_heap :
+  forall (K V : Type) (keqb : K -> K -> bool),
+    (forall a b, keqb a b = true <-> a = b) ->
+  forall (kzero : K) (vzero : V) (sizeOf : V -> Z) (hv : variant) (lim : Z),
+    0 < lim -> all_atomic = true -> parent_halves hv = false -> pop_no_siftup hv = false ->
+  forall L, legal (cache K V) (op K V) (cres_t K V) (cres_t K V) method_shape (csec K V keqb kzero vzero sizeOf hv) None (cfin K V)
+              (cache_init K V lim) L ->
+    map snd L = map Some (s2_run K V keqb vzero sizeOf lim [] (map fst L)).
+Proof.
+  intros K V keqb Hk kzero vzero sizeOf hv lim Hl HA H1 H2 L HL.
+  pose proof (refines_S2_sound_heap K V keqb Hk kzero vzero sizeOf hv H1 H2 lim (map fst L) Hl) as HRun.
+  unfold run_new in HRun. rewrite (cache_new_ok K V lim Hl) in HRun.
+  exact (proj1 (legal_run K V keqb kzero vzero sizeOf hv HA _ _ _ HRun HL)).
+Qed.
+
+(* Get is not read-only: it may not run under the shared lock *)
+Lemma get_changes_state :
+  exists c : cache Z Z, fst (cache_seq Z Z Z.eqb 0 0 (fun _ => 1) pinned c (OGet 1)) <> c.
+Proof.
+  exists (fst (cache_seq Z Z Z.eqb 0 0 (fun _ => 1) pinned (cache_init Z Z 2) (OPut 1 10))).
+  vm_compute. intro H. discriminate H.
+Qed.
